@@ -262,9 +262,12 @@ def run_shard(spec: Dict[str, Any], seed: int, acc: Any) -> None:
         one = feed([raw])
         has_substance = kind == 'chunk' or bool(c['msg']['body']) or len(G.all_headers(c['msg'])) >= 2
         acc.size('max_message_len', len(raw))
-        for cuts in cut_sets_for(c, raw, mlen, spec['pair_limit']):
-            nt = has_substance and any(0 < x < mlen for x in cuts)
-            acc.case(dict(base, cuts=cuts), nt, key=(raw, cuts))
+        all_sets = cut_sets_for(c, raw, mlen, spec['pair_limit'])
+        # the cut sets of one message are distinct by construction: counted per message (the message bytes are the key)
+        distinct_sets = set(tuple(x) for x in all_sets)
+        n_nt = sum(1 for x in distinct_sets if has_substance and any(0 < y < mlen for y in x))
+        acc.bulk((raw, spec['pair_limit']), len(all_sets), n_nt, sample=dict(base, cuts=all_sets[min(3, len(all_sets) - 1)]))
+        for cuts in all_sets:
             vs = check_cuts(base, cuts, one)
             if vs:
                 unl = [v for v in vs if acc.classify(v[0], v[1]) is None]
